@@ -148,8 +148,10 @@ def run(ctx):
         "trait strings are not spelled like constant names; documents whose readings match parsable traits of two different values (YAML 12 vs \"12\") carry no obligation",
     ]
     ctx.obligations_or_violation()
+    if not gl.build_judge(ctx):
+        return
     quick = ctx.tier == "quick"
-    terms, jsons, err = gl.run_batches(ctx, "c12", 16, 8, 75)
+    terms, jsons, err = gl.run_batches(ctx, "c12", 20, 8, 75)
     if err:
         ctx.report({"unchecked": "generator farm run against the current tree", "detail": err},
                    {"kind": "harness"}, failing_input=False)
@@ -160,17 +162,7 @@ def run(ctx):
         ctx.report({"unchecked": "in-kernel evaluation of the correspondence", "detail": err},
                    {"kind": "coq_eval"}, failing_input=False)
         return
-    for i, code in bad:
-        j = jsons[i]
-        if ctx.nreplay < 1 and not gl.known(ctx, features(j)):
-            j = gl.minimise(ctx, "c12", CASE_TYPE, JUDGE, j, code)
-        rep = {"case": gl.slim(j, maxlist=12),
-               "definition_file": gl.single_enum_file(j) if "/minimised" not in j["kind"] else j["file"],
-               "differences": explain(j),
-               "verdict": {1: "observed behaviour violates the C12 specification (failing input)",
-                           2: "observed behaviour satisfies the specification but differs from the Coq model"}[code],
-               "replay_cmd": "./check C12 --replay <this file>"}
-        ctx.report(rep, features(j), failing_input=(code == 1))
+    gl.report_all(ctx, "c12", CASE_TYPE, JUDGE, jsons, bad, features, explain, widen_n=30, shard=6, maxlist=12)
     docs = [d for j in jsons for d in (j["obs"].get("docs") or [])]
     skipped = [j for j in jsons if j["outcome"] == "compile_error" and not j["file"]["opts"]["yaml"]]
     ctx.cov.update({
